@@ -11,6 +11,12 @@ C04 info          -> the setup line for the parameters now in force
 C04 tf ix iy      -> ok turns=[…]   (fresnel: sub-sample phases in turns mod 1)
                    | ok rad=[…] evz=… evzold=…   (angular: sub-sample radicands (n/λ)² - ν²; decay distance of
                                                    evanescent components, repaired and unrepaired code)
+C04 tfq qx qy     -> ok at=[ix,iy] turns=[…] | ok at=[ix,iy] rad=[…] evz=… evzold=…: the same for the sample that multiplies
+                      FFT bin (qy,qx), i.e. centred index `ifftshiftIdx` of it (what `modelD` uses)
+C04 emb           -> ok rows=[…] cols=[…] padok=0|1: internal row of every input row, internal column of every input
+                      column (`embRows`, `embCols` — the components of `cutoutEmb`)
+C04 stokesI [a,b,c,d] [xr,xi,yr,yi,zr,zi,wr,wi] -> ok I=… phys=0|1   (`stokesI`, `stokesPhysical`; stateless)
+C04 mdot n 0|1 Dre Dim vre vim -> ok re=[…] im=[…]   (`mdot`: D·v, or Dᴴ·v when the flag is 1; D row-major n², v n; stateless)
 C04 ir jy         -> ok amp=… turns=[…] (fresnel) | ok r2=[…] (angular): impulse response on row jy of the
                       enlarged grid, for jx = 0..Mx-1 and all s² dithers (x dither fastest)
 ```
@@ -89,6 +95,35 @@ def step (st : St) : List String → St × String
       | .angular => (st, s!"ok rad={showRatList (angularSubRadicands p ix iy)} evz={showRat (evanescentZ p)} evzold={showRat (evanescentZOld p)}")
     | none, some _, some _ => (st, "err value")
     | _, _, _ => (st, "bad-op")
+  | ["tfq", qx, qy] =>
+    match st.p, parseNat? qx, parseNat? qy with
+    | some p, some qx, some qy =>
+      if qx ≥ mx p || qy ≥ my p then (st, "err index") else
+      let ix := ifftshiftIdx (mx p) qx
+      let iy := ifftshiftIdx (my p) qy
+      match p.kind with
+      | .fresnel => (st, s!"ok at={showNatList [ix, iy]} turns={showRatList (fresnelSubTurns p ix iy)}")
+      | .angular => (st, s!"ok at={showNatList [ix, iy]} rad={showRatList (angularSubRadicands p ix iy)} evz={showRat (evanescentZ p)} evzold={showRat (evanescentZOld p)}")
+    | none, some _, some _ => (st, "err value")
+    | _, _, _ => (st, "bad-op")
+  | ["emb"] =>
+    match st.p with
+    | some p => (st, s!"ok rows={showNatList (embRows p)} cols={showNatList (embCols p)} padok={showBool (padOK p)}")
+    | none => (st, "err value")
+  | ["stokesI", sv, e] =>
+    match parseRatList? sv, parseRatList? e with
+    | some [a, b, c, d], some [xr, xi, yr, yi, zr, zi, wr, wi] =>
+      (st, s!"ok I={showRat (stokesI a b c d xr xi yr yi zr zi wr wi)} phys={showBool (stokesPhysical a b c d)}")
+    | _, _ => (st, "bad-op")
+  | ["mdot", n, adj, dre, dim, vre, vim] =>
+    match parseNat? n, parseNat? adj, parseRatList? dre, parseRatList? dim, parseRatList? vre, parseRatList? vim with
+    | some n, some adj, some dre, some dim, some vre, some vim =>
+      if adj > 1 || dre.length ≠ n * n || dim.length ≠ n * n || vre.length ≠ n || vim.length ≠ n then (st, "err value") else
+      let D := (dre.zip dim).map fun (a, b) => (⟨a, b⟩ : GRat)
+      let v := (vre.zip vim).map fun (a, b) => (⟨a, b⟩ : GRat)
+      let r := mdot n (adj == 1) D v
+      (st, s!"ok re={showRatList (r.map (·.re))} im={showRatList (r.map (·.im))}")
+    | _, _, _, _, _, _ => (st, "bad-op")
   | ["ir", jy] =>
     match st.p, parseNat? jy with
     | some p, some jy =>
